@@ -16,7 +16,41 @@ TRUSTED_BASE = ['OS delivery of EPIPE / SIGPIPE disposition / exit codes; faults
 ASSUMPTIONS = ['"promptly" = the process has exited 2 s after the consumer went away, also on endless input']
 
 
-def run_close_after(args, k, endless, finite_input=b'', timeout=2.0):
+def run_filtered_close(variant, timeout=2.0):
+    """`first` on: one matching line (read by the consumer, which then goes away); variant A: one more matching line
+    (its write fails); then endless non-matching lines.  Returns dict(rc (None = still running), stderr)."""
+    p = subprocess.Popen([aglib.AGRIND, 'first'], stdin=subprocess.PIPE, stdout=subprocess.PIPE, stderr=subprocess.PIPE, env=aglib.ENV, bufsize=0)
+    def feed(data):
+        try:
+            p.stdin.write(data)
+            return True
+        except (BrokenPipeError, OSError):
+            return False
+    feed(b'first 1\n')
+    p.stdout.readline()
+    p.stdout.close()
+    if variant == 'A':
+        feed(b'first 2\n')
+        time.sleep(0.4)
+    deadline = time.time() + timeout
+    while time.time() < deadline and p.poll() is None:
+        if not feed(b'later\n' * 200):
+            break
+        time.sleep(0.01)
+    try:
+        rc = p.wait(timeout=0.5)
+    except subprocess.TimeoutExpired:
+        rc = None
+        p.kill()
+        p.wait()
+    try:
+        p.stdin.close()
+    except Exception:
+        pass
+    return {'rc': rc, 'stderr': p.stderr.read()}
+
+
+def run_close_after(args, k, endless, finite_input=b'', timeout=2.0, matching_lines=None):
     """start agrind, read k bytes of stdout, close it; keep feeding stdin (endless) or feed finite input; returns dict"""
     p = subprocess.Popen([aglib.AGRIND] + args, stdin=subprocess.PIPE, stdout=subprocess.PIPE, stderr=subprocess.PIPE, env=aglib.ENV)
     stop = threading.Event()
@@ -26,7 +60,9 @@ def run_close_after(args, k, endless, finite_input=b'', timeout=2.0):
         try:
             if endless:
                 while not stop.is_set():
-                    p.stdin.write(b''.join(b'{"id": %d, "k": "%s", "v": %d}\n' % (j, b'abc'[j % 3:j % 3 + 1], j % 7) for j in range(i, i + 200)))
+                    # matching_lines: only the first so many lines contain the word the query filters on
+                    word = lambda j: b'first' if matching_lines is None or j < matching_lines else b'later'
+                    p.stdin.write(b''.join(b'{"id": %d, "k": "%s", "v": %d, "w": "%s"}\n' % (j, b'abc'[j % 3:j % 3 + 1], j % 7, word(j)) for j in range(i, i + 200)))
                     p.stdin.flush()
                     i += 200
             else:
@@ -79,6 +115,7 @@ def explore(ctx):
     rng = ctx['rng']
     quick = ctx['tier'] == 'quick'
     failures = []
+    known_lines = []
     evaluations = 0
     nontrivial = 0
     samples = []
@@ -98,6 +135,27 @@ def explore(ctx):
                 if k >= line_len:
                     nontrivial += 1
     samples.append({'query': rec_q, 'close_after_bytes': offsets[:6], 'modes': ['json', 'logfmt', 'legacy', 'format']})
+    # a keyword filter and endless input that stops matching it: (A) one more matching line arrives after the consumer
+    # went away, so the write fails and agrind knows: it must stop although no row reaches the channel again;
+    # (B) nothing is ever written again after the close: agrind cannot notice without polling stdout (KF-31)
+    for variant in ('A', 'B'):
+        for rep in range(2 if quick else 10):
+            res = run_filtered_close(variant)
+            evaluations += 1
+            nontrivial += 1
+            if res['rc'] is None:
+                if variant == 'B':
+                    if 'stdout_closed_without_further_output' in ctx.get('known_classes', ()):
+                        line = 'KF-31 stdout closed and no row is ever produced again (endless input that no longer matches the filter): agrind keeps reading, a closed stdout is only noticed by writing to it [history: `first` with 1 matching line, stdout closed after it was read, then endless non-matching lines]'
+                        if line not in known_lines:
+                            known_lines.append(line)
+                    else:
+                        failures.append({'kind': 'spec', 'what': 'stdout closed, endless input that never matches again: still running after 2 s', 'payload': {'query': 'first', 'variant': 'B'}})
+                else:
+                    failures.append({'kind': 'spec', 'what': 'stdout closed, one more matching line made the write fail, then endless non-matching input: still running 2 s later',
+                                     'payload': {'query': 'first', 'variant': 'A', 'stderr': res['stderr'][-200:].decode('utf8', 'replace')}})
+            elif b'panicked' in res['stderr'] or res['stderr'].count(b'\n') > 1:
+                failures.append({'kind': 'spec', 'what': 'stdout closed on a filtered pipeline: unclean exit', 'payload': {'variant': variant, 'stderr': res['stderr'][-300:].decode('utf8', 'replace')}})
     # aggregate pipelines: the consumer goes away before the final print (finite input), and on a live terminal (endless input)
     for q in ('* | json | count by k', '* | json | sum(v), count by k | sort by k', '* | json | count'):
         for mode in ('json', 'legacy', 'logfmt'):
@@ -178,4 +236,4 @@ def explore(ctx):
         'samples': samples,
         'fault_points': len(offsets),
     }
-    return {'coverage': cov, 'failures': failures}
+    return {'coverage': cov, 'failures': failures, 'known_lines': known_lines}
